@@ -112,16 +112,22 @@ def run(tier):
     alpha = [{"t": "T_ID", "n": 0, "s": "i"}, {"t": "T_NAT", "n": 1, "s": ""}, {"t": "T_KW_AND", "n": 0, "s": ""}, {"t": "T_BOOL_AND", "n": 0, "s": ""},
              {"t": "T_KW_OR", "n": 0, "s": ""}, {"t": "T_BOOL_OR", "n": 0, "s": ""}, {"t": "T_KW_NOT", "n": 0, "s": ""}, {"t": "T_EXCLAM", "n": 0, "s": ""},
              {"t": "T_LT", "n": 0, "s": ""}, {"t": "'('", "n": 0, "s": ""}, {"t": "')'", "n": 0, "s": ""}, {"t": "T_KW_IMPLY", "n": 0, "s": ""}]
-    for start in (("T_NEW_GUARD", "T_NEW_ASSIGN") if quick else ("T_NEW_GUARD", "T_NEW_ASSIGN", "T_NEW_INVARIANT", "T_PROPERTY", "T_EXPRESSION")):
-        extra = [{"t": "T_AG", "n": 0, "s": ""}, {"t": "T_LEADS_TO", "n": 0, "s": ""}] if start == "T_PROPERTY" else ([{"t": "T_ASSIGNMENT", "n": 0, "s": ""}, {"t": "','", "n": 0, "s": ""}] if start == "T_NEW_ASSIGN" else [])
-        params = os.path.join(c.run_dir, "alias_%s.json" % start)
-        json.dump({"start": start, "alphabet": alpha + extra, "maxlen": 5 if quick else 6}, open(params, "w"))
+    tk = lambda t: {"t": t, "n": 0, "s": ""}
+    # the query forms in which a sub-formula sits inside a production of its own: `control: A[] ( p and A<> q )` (Buechi objective), `A[ p U q ]`, `Pr[<=1](<> p)`
+    deep = [("T_PROPERTY:control", [tk("T_CONTROL"), tk("':'"), tk("T_AG"), tk("'('")], [tk("T_AF"), tk("T_AG")], 5 if quick else 6),
+            ("T_PROPERTY:control_until", [tk("T_CONTROL"), tk("':'"), tk("'A'"), tk("'['")], [tk("'U'"), tk("'W'"), tk("']'")], 4 if quick else 6)]
+    plain = [(s, [], [tk("T_AG"), tk("T_LEADS_TO")] if s == "T_PROPERTY" else ([tk("T_ASSIGNMENT"), tk("','")] if s == "T_NEW_ASSIGN" else []), 5 if quick else 6)
+             for s in (("T_NEW_GUARD", "T_NEW_ASSIGN") if quick else ("T_NEW_GUARD", "T_NEW_ASSIGN", "T_NEW_INVARIANT", "T_PROPERTY", "T_EXPRESSION"))]
+    for name, prefix, extra, maxlen in plain + deep:
+        start = name.split(":")[0]
+        params = os.path.join(c.run_dir, "alias_%s.json" % name.replace(":", "_"))
+        json.dump({"start": start, "alphabet": alpha + extra, "maxlen": maxlen, "prefix": prefix}, open(params, "w"))
         r = vf.run_tlc("AliasLR", "AliasLR.cfg", c.run_dir, env={"LR_TABLES": os.path.join(gen, "lr_tables.json"), "LR_PARAMS": params}, timeout=3000, xmx="16g", keep_out=False)
-        c.add_tlc("AliasLR_" + start, r, "AliasInvariant and ParenInvariant on every token string at %s" % start)
+        c.add_tlc("AliasLR_" + name.replace(":", "_"), r, "AliasInvariant and ParenInvariant on every token string at %s%s" % (start, (" that begins with " + " ".join(x["t"] for x in prefix)) if prefix else ""))
         if r.violated:
             m = re.search(r"/\\ hist = (<<.*?>>)\n", r.out, re.S)
-            c.finding("c09:grammar:%s:%s" % (start, r.violated), "on the grammar of the working tree, %s fails at entry %s: the keyword and symbolic spelling of an operator (or a redundant pair of parentheses) parse differently" % (r.violated, start),
-                      {"entry": start, "invariant": r.violated, "tlc_trace_tail": r.out[-3000:]})
+            c.finding("c09:grammar:%s:%s" % (name, r.violated), "on the grammar of the working tree, %s fails at entry %s: the keyword and symbolic spelling of an operator (or a redundant pair of parentheses) parse differently" % (r.violated, start),
+                      {"entry": name, "invariant": r.violated, "tlc_trace_tail": r.out[-3000:]})
     # ---- metamorphic replay
     models = docgen.generate(c, ["labels", "mixed"], 700 if quick else 5000, c.seed, bfs=False)
     cand = [e["m"] for e in models if faults.blocks(e["m"])]
